@@ -1,7 +1,9 @@
 //! Verification hooks: visibility only, no logic. Compiled only with
 //! `--cfg datadog_dd_native_iast_rewriter_js_verif`.
 pub use crate::lib_wasm::verif::*;
-pub use crate::lib_wasm::{CsiMethod as WasmCsiMethod, Metrics, Result as WasmResult, RewriterConfig};
+pub use crate::lib_wasm::{
+    CsiMethod as WasmCsiMethod, Metrics, Result as WasmResult, RewriterConfig,
+};
 pub use crate::rewriter::{print_js, rewrite_js, Config, OriginalSourceMap, RewrittenOutput};
 pub use crate::transform::transform_status::{Status, TransformStatus};
 pub use crate::util::{file_name, rnd_string, FileReader};
